@@ -56,7 +56,7 @@ func c20sFrame(evm *EVM, c types.ContractRef, gas uint64) ([]byte, uint64, error
 	back := verifNondetUint64()
 	verifAssume(back <= gas)
 	c20sReturned += back
-	ret := verifNondetBytes(verifCase(3))
+	ret := verifNondetBytes(2)
 	switch verifCase(3) {
 	case 1:
 		return ret, 0, ErrOutOfGas
@@ -258,7 +258,7 @@ func c20sRun(op OpCode, depth int, readOnly bool) {
 	contract.SetCallCode(&a, common.Hash{0x01}, code)
 	c20sForwarded, c20sReturned, c20sFrames, c20sWrites, c20sMemLen = 0, 0, 0, 0, 0
 	c20sGas0, c20sContract = gas, contract
-	input := verifNondetBytes(verifCase(3))
+	input := verifNondetBytes(2)
 	_, err := in.Run(contract, input, readOnly)
 	verifReach("program-ran")
 	verifAssert(contract.Gas <= gas, "frame-never-ends-with-more-gas-than-it-was-given")
